@@ -105,6 +105,7 @@ Definition of_opt {A} (o : option A) : outcome A :=
 Definition apply_padding1 (m : pmode) (d : direction) (lhs : list T) (n_rhs : nat) (off : Z)
   : outcome (list T) :=
   let nl := zlen lhs in let nr := Z.of_nat n_rhs in
+  if size_guard_before_skip && illegal_size m nr then ValueErr else
   if padding_skipped nl nr then Ok lhs else
   let pl := n_pad_l off nl nr in let pr := n_pad_r off nl nr in
   if illegal_size m nr || illegal_padlen m pl nr || illegal_padlen m pr nr then ValueErr else
